@@ -1,6 +1,7 @@
 package harness
 
 import (
+	"fmt"
 	"time"
 
 	"github.com/alpacahq/marketstore/v4/zzverif/simrt"
@@ -63,6 +64,37 @@ func crashEngine(prop string, power bool) *Engine {
 		}
 		lifetimes := 1 + r.Intn(3)
 		insertCrashOps(w, r, lifetimes)
+		if r.Pct(20) {
+			// in the last lifetime a bucket is destroyed and created again under the
+			// same key with another schema, then written to (Destroy is not logged in
+			// the WAL: what does recovery do with the old incarnation's transactions?)
+			old := w.Buckets[r.Intn(len(w.Buckets))]
+			nb := &Bucket{Sym: old.Sym, TF: old.TF, Attr: old.Attr, Variable: old.Variable, Cols: []Col{{Name: "Id", Typ: "i8"}}}
+			for j, nx := 0, 1+r.Intn(3); j < nx; j++ {
+				nb.Cols = append(nb.Cols, Col{Name: fmt.Sprintf("R%d", j), Typ: []string{"f4", "f8", "i4", "i8"}[r.Intn(4)]})
+			}
+			if r.Pct(40) {
+				w.Ops = append(w.Ops, &WOp{Kind: "sleep", D: time.Duration(r.Intn(400)) * time.Second})
+			}
+			w.Ops = append(w.Ops, &WOp{Kind: "destroy", Key: old.Key()})
+			if r.Pct(30) {
+				w.Ops = append(w.Ops, &WOp{Kind: "sleep", D: time.Duration(r.Intn(400)) * time.Second})
+			}
+			w.Ops = append(w.Ops, &WOp{Kind: "create", B: nb})
+			base := time.Date(2021, 7, 1, 0, 0, 0, 0, time.UTC).UnixNano()
+			for k, nw := 0, 1+r.Intn(3); k < nw; k++ {
+				var recs []Rec
+				for i, nr := 0, 1+r.Intn(3); i < nr; i++ {
+					t := base + int64(k*10+i)*int64(nb.TFDur()) + int64(r.Intn(1000))
+					if !nb.Variable {
+						t = floorDiv(t, 1e9) * 1e9
+					}
+					recs = append(recs, Rec{T: t, ID: int64(800000 + k*100 + i)})
+				}
+				w.Ops = append(w.Ops, &WOp{Kind: "write", W: []*WriteReq{{Variable: nb.Variable, Parts: []*BucketWrite{{B: nb, Recs: recs}}}}})
+			}
+			res.Count("bucket-destroyed-and-recreated", 1)
+		}
 		p := CrashParams{Prop: prop, Power: power, Lifetimes: lifetimes}
 		if power {
 			p.RandomSets = 3
